@@ -215,6 +215,16 @@ def scalar_literals():
             vals += [("-0", 0), ("-17", -17)]
         if kw.endswith("64"):
             vals.append(("1099511627776", 2 ** 40))
+        if kw.endswith("64"):
+            # at and around the float mantissa and the limits of the width: must come back as exact integers
+            big = [2 ** 53 - 1, 2 ** 53, 2 ** 53 + 1, 2 ** 53 + 3, 2 ** 63 - 1]
+            if kw == "int64":
+                big += [-(2 ** 53 + 1), -(2 ** 63 - 1), -(2 ** 63)]
+            else:
+                big += [2 ** 63, 2 ** 63 + 1, 12345678901234567891, 2 ** 64 - 1]
+            for v in big:
+                out.append((("int", "beyond-2**53"), kw, None, G.lit(str(v), v), None))
+            out.append((("int", "beyond-2**53", "unit"), kw, None, G.lit(str(2 ** 53 + 1), 2 ** 53 + 1), "ns"))
         for t, v in vals:
             out.append((("int",) + (("zero",) if v == 0 else ()), kw, None, G.lit(t, v), None))
         out.append((("int", "none"), kw, None, G.lit("none", None), None))
@@ -259,6 +269,10 @@ def array_literals():
          ["[[ 0, 1, 2],", " [ 3, 4, 5]]"], [[0, 1, 2], [3, 4, 5]], "km/s"),
         ("int64", ["[2]"], "[1099511627776,-1]", "[1099511627776, -1]", ["[1099511627776,", "-1]"],
          [2 ** 40, -1], None),
+        ("int64", ["[3]"], "[9007199254740993,-9223372036854775807,9223372036854775807]",
+         "[9007199254740993, -9223372036854775807, 9223372036854775807]",
+         ["[9007199254740993,", "-9223372036854775807,", "9223372036854775807]"],
+         [2 ** 53 + 1, -(2 ** 63 - 1), 2 ** 63 - 1], None),
         ("uint16", ["[1]"], "[7]", "[ 7 ]", ["[7]"], [7], "s"),
         ("float", ["[3]", "[3:]", "[:4]", "[:]"], "[0,1.34,1.34e4]", "[0, 1.34, 1.34e4]",
          ["[0,", " 1.34,", " 1.34e4]"], [0.0, 1.34, 13400.0], None),
@@ -600,8 +614,9 @@ MANIFEST = dict(
          "groups, <= 6 (7) lines of plain groups and definitions, with value forms rotating over bool/int/float/str, "
          "quoting and units; every assignment of 1/2/4 blanks to the children of each parent for trees of <= 5 (6) "
          "lines; every way of adding <= 2 decorations (blank line, line of blanks, comment line at 3 indentations, "
-         "trailing comment with 4 texts) to trees of <= 2 (3) lines and 1 decoration up to 4 (5) lines; 273 literal "
-         "forms (all type spellings, number notations, strings, none, inline / quoted / block arrays with 5 dimension "
+         "trailing comment with 4 texts) to trees of <= 2 (3) lines and 1 decoration up to 4 (5) lines; ~300 literal "
+         "forms (all type spellings, number notations, 64-bit integers at 2**53+-1, 2**63-1, 2**64-1 compared as exact "
+         "Python ints, strings, none, inline / quoted / block arrays with 5 dimension "
          "notations) and 468 tables at root, below a group and behind a dotted name (quick ~1.1e5 programs, thorough "
          "~1.7e6). Coverage statement: paths, order, type, precision, sign, unit and value equal what was written for "
          "every program in these bounds.",
